@@ -35,6 +35,7 @@ import (
 	"github.com/muktihari/fit/profile/basetype"
 	"github.com/muktihari/fit/profile/factory"
 	"github.com/muktihari/fit/profile/typedef"
+	"github.com/muktihari/fit/profile/untyped/fieldnum"
 	"github.com/muktihari/fit/profile/untyped/mesgnum"
 	"github.com/muktihari/fit/proto"
 )
@@ -760,6 +761,7 @@ func c12(args []string) {
 	}
 
 	h.csvSubFields()
+	h.validatorAcrossSequences()
 	h.unscaledAnd64()
 	if *accPath != "" {
 		h.accessors(*accPath, thorough)
@@ -770,6 +772,78 @@ func c12(args []string) {
 	stat("oracle_evaluations", h.nEval)
 	stat("oracle_fail", h.fails)
 	stat("cases", h.caseIdx)
+}
+
+// validatorAcrossSequences: the encoder validator's restoration of float-valued developer fields uses the scale the CURRENT file
+// declares -- a chain of files that declare the same developer field with different scales, through the batch encoder and
+// through a stream encoder that lives across the files; every raw value comes back as written.
+func (h *c12Run) validatorAcrossSequences() {
+	loadFactory()
+	mkFile := func(scale uint8, raw uint16) []proto.Message {
+		msgs := []proto.Message{fileIdMesg(h.r)}
+		dd := proto.Message{Num: mesgnum.DeveloperDataId}
+		f := factory.CreateField(mesgnum.DeveloperDataId, fieldnum.DeveloperDataIdDeveloperDataIndex)
+		f.Value = proto.Uint8(0)
+		dd.Fields = append(dd.Fields, f)
+		msgs = append(msgs, dd)
+		fd := proto.Message{Num: mesgnum.FieldDescription}
+		add := func(num byte, v proto.Value) {
+			f := factory.CreateField(mesgnum.FieldDescription, num)
+			f.Value = v
+			fd.Fields = append(fd.Fields, f)
+		}
+		add(fieldnum.FieldDescriptionDeveloperDataIndex, proto.Uint8(0))
+		add(fieldnum.FieldDescriptionFieldDefinitionNumber, proto.Uint8(0))
+		add(fieldnum.FieldDescriptionFitBaseTypeId, proto.Uint8(uint8(basetype.Uint16)))
+		add(fieldnum.FieldDescriptionFieldName, proto.SliceString([]string{"depth"}))
+		add(fieldnum.FieldDescriptionScale, proto.Uint8(scale))
+		add(fieldnum.FieldDescriptionOffset, proto.Int8(0))
+		msgs = append(msgs, fd)
+		m := proto.Message{Num: mesgnum.Record}
+		hr := factory.CreateField(mesgnum.Record, fieldnum.RecordHeartRate)
+		hr.Value = proto.Uint8(60)
+		m.Fields = append(m.Fields, hr)
+		m.DeveloperFields = append(m.DeveloperFields, proto.DeveloperField{Num: 0, DeveloperDataIndex: 0, Value: proto.Float64(float64(raw) / float64(scale))})
+		return append(msgs, m)
+	}
+	for _, sc := range [][]uint8{{100, 10}, {10, 100}, {1, 100}, {100, 1}, {2, 4, 8}, {10, 10}} {
+		for _, raw := range []uint16{0, 1, 8, 120, 1000, 12800, 40000} { // multiples that are exact in binary for the power-of-two scales, small for the others
+			var files []encFile
+			for _, s := range sc {
+				files = append(files, encFile{hsize: 14, msgs: mkFile(s, raw)})
+			}
+			ec := encCfg{headerSize: 14, protoVer: proto.V2}
+			for _, stream := range []bool{false, true} {
+				res := runEncode(ec, files, 3, 64, stream, -1, 0, nil)
+				h.nEval++
+				stat("validator_route_across_sequences", 1)
+				if res.panicked != nil || anyTrue(res.errs) || len(res.errs) != len(files) {
+					emitJSON("FAIL", "", map[string]any{"kind": "chain of files redeclaring a scaled developer field is rejected", "scales": fmt.Sprint(sc), "raw": raw, "stream": stream, "errs": res.errs, "panic": fmt.Sprint(res.panicked)})
+					h.fails++
+					continue
+				}
+				dres := decodeBytes(res.data, true, false)
+				if dres.err != nil || len(dres.fits) != len(files) {
+					emitJSON("FAIL", "", map[string]any{"kind": "chain of files redeclaring a scaled developer field does not decode", "scales": fmt.Sprint(sc), "raw": raw, "stream": stream, "err": fmt.Sprint(dres.err)})
+					h.fails++
+					continue
+				}
+				for k, fit := range dres.fits {
+					last := fit.Messages[len(fit.Messages)-1]
+					got := int64(-1)
+					if len(last.DeveloperFields) == 1 {
+						got = int64(last.DeveloperFields[0].Value.Uint16())
+					}
+					// the conversion may lose one unit toward zero (C12's partial theorem); anything else is the wrong scale
+					if got != int64(raw) && got != int64(raw)-1 {
+						emitJSON("FAIL", "", map[string]any{"kind": "scaled developer field restored with another file's scale", "scales": fmt.Sprint(sc), "file": k, "raw": raw, "got": got, "stream": stream})
+						h.fails++
+						break
+					}
+				}
+			}
+		}
+	}
 }
 
 // csvRawRoundTrip: messages of number mesg built from each x by mk, FIT -> CSV -> FIT; the raw value of field num in each
